@@ -73,6 +73,10 @@ def term_write(a, st):
     msg = a._raw["msg"]
     rows, r, c, W, H = g["term.rows"], g["term.r"], g["term.c"], g["term.W"], g["term.H"]
     bad = g["term.bad"]
+    # C07: the rows live on a tape that scrolling moves the screen along: screen row r is tape cell r + off (off = 0 for C02)
+    off = g.get("term.off")
+    tr = r if off is None else z3.simplify(r + off)
+    st.add_index(tr)            # quantified facts about the rows are instantiated where the terminal is written
     if isinstance(msg, tuple) and msg and msg[0] == "move":
         nr, nc = _it(msg[1]), _it(msg[2])
         g["term.bad"] = z3.Or(bad, z3.Not(z3.And(nr >= 0, nr < H, nc >= 0, nc < W)))      # every address is on the screen
@@ -84,21 +88,21 @@ def term_write(a, st):
         st.fact(L >= 0)
         g["term.bad"] = z3.Or(bad, c != 0, L > W)                # text is only ever written from column 0 and never past the margin
         # a full-width line, or a line written onto a blank row, leaves exactly that line on the row
-        old_row = z3.Select(rows, r)
-        g["term.rows"] = z3.Store(rows, r, z3.If(z3.Or(L == W, old_row == Row.blank), Row.shows(l), Row.partial(l)))
+        old_row = z3.Select(rows, tr)
+        g["term.rows"] = z3.Store(rows, tr, z3.If(z3.Or(L == W, old_row == Row.blank), Row.shows(l), Row.partial(l)))
         g["term.c"] = L
         return
     if msg == CLEAR_EOL:
-        cur = z3.Select(rows, r)
+        cur = z3.Select(rows, tr)
         # erasing from column 0 blanks the whole row; after a line written from column 0 it completes "shows(line)"
         new = z3.If(c == 0, Row.blank,
                     z3.If(z3.And(Row.is_partial(cur), c == LINELEN(Row.pline(cur))), Row.shows(Row.pline(cur)),
                           z3.If(z3.Or(Row.is_blank(cur), z3.And(Row.is_shows(cur), c >= LINELEN(Row.line(cur)))), cur, Row.junk)))
-        g["term.rows"] = z3.Store(rows, r, new)
+        g["term.rows"] = z3.Store(rows, tr, new)
         return
     if msg == CLEAR_BOL:
-        cur = z3.Select(rows, r)
-        g["term.rows"] = z3.Store(rows, r, z3.If(z3.And(c == 0, Row.is_blank(cur)), Row.blank, Row.junk))
+        cur = z3.Select(rows, tr)
+        g["term.rows"] = z3.Store(rows, tr, z3.If(z3.And(c == 0, Row.is_blank(cur)), Row.blank, Row.junk))
         return
     if msg in (HIDE, NORMAL):
         return
